@@ -6,8 +6,9 @@ the repository's own suite still passes with it (30 tests); the demonstration pa
 patch and fails (or times out) with it."""
 import json, os, re, shutil, subprocess, sys
 pid, x = sys.argv[1], sys.argv[2]
-src = f'/tmp/mut-{pid}/out/{x}'
-name = f'{pid}-{x}'
+rnd = sys.argv[3] if len(sys.argv) > 3 else ''
+src = f'/tmp/mut{rnd}-{pid}/out/{x}'
+name = f'{pid}-{rnd}{x}'
 wt = f'/tmp/vs-{name}'
 env = dict(os.environ, CARGO_NET_OFFLINE='true', CARGO_TARGET_DIR=f'{wt}/target')
 def sh(cmd, cwd=wt, timeout=900):
